@@ -148,6 +148,12 @@ def generate(rng, tier, index):
     if forced:
         ops.append(gen_op(rng, forced, recipe, iterative, allow, p_each))
         ops.append(gen_predict(rng, recipe, iterative, allow, p_each))
+    elif thorough and index < 4 * len(strat) * 2 + 2 * len(strat) ** 2:
+        # thorough tier: every ordered PAIR of mutation-class operations between two predictions, twice
+        j = (index - 4 * len(strat) * 2) // 2
+        ops.append(gen_op(rng, strat[j % len(strat)], recipe, iterative, allow, p_each))
+        ops.append(gen_op(rng, strat[(j // len(strat)) % len(strat)], recipe, iterative, allow, p_each))
+        ops.append(gen_predict(rng, recipe, iterative, allow, p_each))
     while len(ops) < max_len:
         k = core.weighted_choice(rng, items)
         ops.append(gen_op(rng, k, recipe, iterative, allow, p_each))
